@@ -159,7 +159,9 @@ def handleChain (args : List String) : String :=
         let one := match r.world.mods, r.world.syms with
           | [md], [some sf] => if oneModOkB md sf && gcfiSideOne md sf a r.ctx.ip true fs then "1" else "0"
           | _, _ => "-"
-        s!"hyp={if hyp then 1 else 0} one={one} sp={pAddr a.ptr b s} stack:{hex m.bytes.toList} exp:{"|".intercalate ((gcfiChain a.ptr b s fp0 fs).map showExp)}"
+        -- any number of modules: `gcfiSide_world`
+        let recs := worldOkB r.world && gcfiSideW r.world a r.ctx.ip true fs
+        s!"hyp={if hyp then 1 else 0} one={one} rec={if recs then 1 else 0} sp={pAddr a.ptr b s} stack:{hex m.bytes.toList} exp:{"|".intercalate ((gcfiChain a.ptr b s fp0 fs).map showExp)}"
       else "bad-op"
     | _, _, _, _, _ => "bad-op"
   | "layout" :: "scan" :: base :: s0 :: tail :: frames :: rest =>
